@@ -1,4 +1,4 @@
-From Verif Require Import Model.Bytes Model.Obs Model.Auth.
+From Verif Require Import Model.Bytes Model.Obs Model.Auth Model.Validate.
 Record tokcase := { k_token : bytes; k_override : bool; k_header : option bytes; k_impl : obs }.
 Definition tok_model (c : tokcase) : obs := obool (intercept (if k_override c then Some (k_token c) else None) (k_header c)).
 Definition tok_check (c : tokcase) : bool := obs_eqb (tok_model c) (k_impl c).
@@ -12,3 +12,8 @@ Definition tls_model (c : tlscase) : obs :=
                   (if s_presented c && s_chains c then [ {| l_cn := s_cn c; l_valid_for := fun _ => s_host_ok c |} ] else []))
   end.
 Definition tls_check (c : tlscase) : bool := obs_eqb (tls_model c) (s_impl c).
+
+(* address schemes: observed (secure, unix socket) of cmd.resolveURL *)
+Record urlcase := { u_scheme : scheme; u_impl : obs }.
+Definition url_model (c : urlcase) : obs := OL [obool (secure (u_scheme c)); obool (unix_socket (u_scheme c))].
+Definition url_check (c : urlcase) : bool := obs_eqb (url_model c) (u_impl c).
